@@ -724,6 +724,21 @@ func runLookupOnce(c *lkCase, rep int, report bool) (*lkState, lkResult) {
 				time.Sleep(3 * time.Millisecond)
 				close(consumerGo)
 			}
+			if c.api == "put" {
+				// Put's consumer takes the served values one by one; on a loaded machine it can lag behind the replies
+				// already delivered although no goroutine count moves (seen once in a fresh sandbox and under 16 busy
+				// loops: `res ctx:1` against the model's `ctx:3`). The stop belongs AFTER the replies of the history:
+				// wait (bounded) until the consumer has seen the newest genuine version served so far.
+				var max int64
+				for _, n := range c.nodes {
+					if n.genuine && n.item != nil && n.item.seq != nil && st.served[n.addr.String()] > 0 && *n.item.seq > max {
+						max = *n.item.seq
+					}
+				}
+				for dl := time.Now().Add(3 * time.Second); atomic.LoadInt64(&res.autoSeq) < max && time.Now().Before(dl); {
+					time.Sleep(200 * time.Microsecond)
+				}
+			}
 			switch c.stopAct {
 			case "ctx":
 				say("lkctx => ok")
